@@ -1,8 +1,8 @@
 """C15 -- the v1 license archive round-trips.  T (main leg): seeded subsets/orderings of the 178 shipped files plus synthetic ones (text after the END marker, notice-only text, a .header file, non-.txt names) archived with the real ArchiveLicenses, loaded with New(ArchiveBytes) and compared with a directly built classifier: key sets, normalised values, and NearestMatch/MultipleMatch on every query (TraceV1 memo).
-M: the contract spec V1Contract has no reachable-state exploration of its own here; the TLC work is the trace validation."""
+M/G: V1Archive (entry pairing of ArchiveLicenses / registerLicenses, RoundTrip) -- every ordered set of <= 4 (5) files out of 6 candidates (license, .header, notice-only text, non-.txt names) archived and loaded for real."""
 import os, time
 from lib import vlib
-from lib.vlib import go_overlay_test, read_ndjson, sub
+from lib.vlib import go_overlay_test, read_ndjson, sub, tlc, tlc_require_ok
 from checks.v2common import Acc
 from checks.v1common import trace_v1
 PID = "C15"
@@ -23,6 +23,21 @@ def run_lic(test, env, timeout=3400):
     return recs, rc, txt
 def run():
     t0 = time.time(); v = vlib.Verdict(PID); acc = Acc(); th = vlib.TIER == "thorough"
+    # M + G on the archive layout spec
+    cfgt = open(os.path.join(vlib.SPECS, "V1Archive.cfg")).read().replace("MaxFiles = 4", "MaxFiles = %d" % (5 if th else 4))
+    gen = tlc("V1ArchiveMC", "V1Archive.cfg", workers=4, timeout=900, files={"V1Archive.cfg": cfgt})
+    tlc_require_ok(gen, "V1Archive"); acc.add_tlc(gen, "V1Archive.cfg")
+    out = os.path.join(sub("out"), "archive.replay.ndjson")
+    rc, txt, _ = go_overlay_test("serializer", SRC + ["serializer/archive_replay_test.go"], "^TestVerifArchiveReplay$", env={"VERIF_IN": gen.outpath, "VERIF_OUT": out}, timeout=1800, abs_extra=overlay_extra())
+    rr = read_ndjson(out)
+    summ = [r for r in rr if r.get("kind") == "summary"]
+    if vlib.build_failed(txt) or not summ or summ[0]["vectors"] == 0:
+        raise vlib.Inconclusive("archive replay driver failed:\n" + txt[-3000:])
+    acc.evaluations += summ[0]["vectors"]; acc.extra["archive_replay"] = {k: summ[0][k] for k in ("vectors", "nontrivial", "mismatches")}
+    acc.samples += [{"vector": x} for x in (summ[0].get("samples") or [])[:1]]
+    for r in rr:
+        if r.get("kind") == "mismatch":
+            v.fail("archive-replay", r)
     env = {"VERIF_ROUNDS": "4" if th else "3", "VERIF_SUBSET": "178" if th else "25", "VERIF_QUERIES": "60" if th else "16"}
     recs, rc, txt = run_lic("TestVerifC15", env)
     for r in recs:
